@@ -130,7 +130,7 @@ def build_case(case):
                            "tasking_engine_id": eng_id, "agent_id": aid, "agent_type": "target" if is_t else "sensor"})
             m.update(kind=kind, etype="agent_removal", ident=aid, who=(T if is_t else S)(aid), tgt=(T if is_t else S)(aid))
         elif kind == "priority":
-            tcfg = engines[eng_idx]["targets"][0]
+            tcfg = engines[eng_idx]["targets"][ev.get("target_index", 0)]
             events.append({**base, "scope": "task_reward_generation", "scope_instance_id": eng_id,
                            "event_type": "task_priority", "target_id": tcfg["id"], "target_name": tcfg["name"],
                            "priority": 2.0, "is_dynamic": False})
@@ -206,6 +206,20 @@ def make_cases(ctx: Ctx, rng):
             if not ctx.quick or si % 2 == 0:
                 add(start, step, [{"kind": "addTarget", "t0": a * step},
                                   {"kind": "impulse", "t0": min(n, a + 1) * step, "planned": True, "target": "added"}])
+            # a maneuver addressed to a target that is NOT YET in the scenario (skipped), the target joins, a later maneuver
+            # of it must be applied; and a maneuver still scheduled for a target that has been removed (skipped)
+            if a + 2 <= n:      # step a: maneuver of the absent target; step a+1: it joins; step a+2: its next maneuver
+                add(start, step, [{"kind": "impulse", "t0": (a - 1) * step + 1, "planned": True, "target": "added"},
+                                  {"kind": "addTarget", "t0": (a + 1) * step},
+                                  {"kind": "impulse", "t0": (a + 1) * step + 1, "planned": True, "target": "added"}])
+            add(start, step, [{"kind": "removeTarget", "t0": a * step, "index": 1},
+                              {"kind": "impulse", "t0": min(n, a + 1) * step, "planned": False, "target": 1}])
+            # duration events whose addressee leaves the scenario while they are active: a time bias of a sensor that is
+            # removed, a priority for a target that is removed (skipped from then on; the run goes on)
+            add(start, step, [{"kind": "bias", "t0": (a - 1) * step + 1, "t1": (n + 2) * step, "sensor": 1},
+                              {"kind": "removeSensor", "t0": (a + 1) * step if a + 1 <= n else a * step, "index": 1}])
+            add(start, step, [{"kind": "priority", "t0": (a - 1) * step + 1, "t1": (n + 1) * step, "engine": 0, "target_index": 1},
+                              {"kind": "removeTarget", "t0": (a + 1) * step if a + 1 <= n else a * step, "index": 1}])
             # the run is performed in two propagateTo calls that meet exactly at an event's epoch
             j = rng.randint(1, n - 1)
             add(start, step, [{"kind": "impulse", "t0": j * step, "planned": (si + j) % 2 == 0}], split=[j, n - j])
